@@ -289,6 +289,9 @@ func runC15(c runCfg) error {
 		for gi, d := range c15AliasGraphs(c.Thorough) {
 			ms = append(ms, mutant{fmt.Sprintf("aliasgraph-%d", gi), "original", "-", []byte(d)})
 		}
+		for si, d := range c15Shapes() {
+			ms = append(ms, mutant{fmt.Sprintf("shape-%d", si), "original", "-", []byte(d)})
+		}
 		// hand-written documents for the historical crash sites
 		for i, d := range c15Regression {
 			addBase(fmt.Sprintf("regression-%d", i), []byte(d))
@@ -425,6 +428,46 @@ func c15AliasGraphs(thorough bool) []string {
 					fmt.Sprintf(k.use, used), k.section, strings.Join(entries, ",")))
 			}
 		}
+	}
+	return out
+}
+
+// shapes found by the second round of seeded changes (and by the sub-agent's own probing of the unchanged tree)
+func c15Shapes() []string {
+	var out []string
+	head := `{"openapi":"3.0.0","info":{"title":"t","version":"1"},`
+	ok := `"responses":{"200":{"description":"ok"}}`
+	// server variables: with and without default, null, non-string, unused, self-referential
+	for _, v := range []string{`{}`, `{"default":null}`, `{"default":"v1"}`, `{"default":""}`, `{"enum":["a"]}`, `{"default":"{stage}"}`, `{"default":"a","description":"d"}`} {
+		for _, u := range []string{"https://h/{stage}/v1", "/{stage}", "{stage}", "https://{stage}.example.com/api"} {
+			out = append(out, head+fmt.Sprintf(`"servers":[{"url":%q,"variables":{"stage":%s}}],"paths":{"/a":{"get":{%s}}}}`, u, v, ok))
+		}
+	}
+	// path templates: repeated variable, empty variable name, unbalanced braces, variable glued to text, undeclared / extra parameters
+	for _, raw := range []string{"/a/{id}/b/{id}", "/{id}/{id}", "/a/{}", "/a/{id", "/a/id}", "/a/x{id}", "/a/{id}y", "/a/{i d}", "/{a}{b}", "//", "/a//b", "/a/{id}/"} {
+		for _, decl := range []string{`[{"name":"id","in":"path","required":true,"schema":{"type":"string"}}]`, `[]`,
+			`[{"name":"id","in":"path","required":true,"schema":{"type":"integer"}},{"name":"other","in":"path","required":true,"schema":{"type":"string"}}]`} {
+			out = append(out, head+fmt.Sprintf(`"paths":{%q:{"parameters":%s,"get":{%s}}}}`, raw, decl, ok))
+		}
+	}
+	// custom Go types: every shape of the extension value
+	for _, ct := range []string{"gopkg.in/Type", "Type", "pkg.Type", "a.b/c.D", "", ".", "pkg.", ".Type", "/x.Y", "x.y.z", "github.com/a/b.T", "a/b", "a.b/c", "[]pkg.T", "*pkg.T", "map[string]pkg.T", "pkg.T[int]", " pkg.T ", "pkg..T"} {
+		for _, pos := range []string{"component", "property", "param"} {
+			sch := fmt.Sprintf(`{"type":"string","x-goag-go-type":%q}`, ct)
+			obj := fmt.Sprintf(`{"type":"object","properties":{"a":{"type":"string"}},"x-goag-go-type":%q}`, ct)
+			switch pos {
+			case "component":
+				out = append(out, head+fmt.Sprintf(`"paths":{"/a":{"get":{"responses":{"200":{"description":"ok","content":{"application/json":{"schema":{"$ref":"#/components/schemas/T"}}}}}}}},"components":{"schemas":{"T":%s}}}`, obj))
+			case "property":
+				out = append(out, head+fmt.Sprintf(`"paths":{"/a":{"get":{%s}}},"components":{"schemas":{"H":{"type":"object","properties":{"f":%s}}}}}`, ok, sch))
+			case "param":
+				out = append(out, head+fmt.Sprintf(`"paths":{"/a":{"get":{"parameters":[{"name":"q","in":"query","schema":%s}],%s}}}}`, sch, ok))
+			}
+		}
+	}
+	// other goag extensions with odd values
+	for _, v := range []string{`""`, `"2006"`, `5`, `null`, `{}`, `"time.RFC3339"`} {
+		out = append(out, head+fmt.Sprintf(`"paths":{"/a":{"get":{"parameters":[{"name":"q","in":"query","schema":{"type":"string","format":"date-time","x-goag-go-time-format":%s}}],%s}}}}`, v, ok))
 	}
 	return out
 }
